@@ -41,7 +41,19 @@ def chunks(text):
     out = {}
     cur_key, cur = None, []
     body = False
+    fence = None
     for ln in text.split("\n"):
+        # the content of a literal zone belongs to the chunk of its key, whatever it looks like
+        if fence is not None:
+            if cur_key is not None:
+                cur.append(ln)
+            if ln.strip() == fence:
+                fence = None
+            continue
+        if ln.lstrip().startswith("```") and cur_key is not None:
+            fence = ln.strip()[: len(ln.strip()) - len(ln.strip().lstrip("`"))]
+            cur.append(ln)
+            continue
         if ln.startswith("===") and ln.endswith("==="):
             if cur_key is not None:
                 out.setdefault(cur_key, []).append("\n".join(cur))
